@@ -368,11 +368,12 @@ def _ws_message_block(srv):
         else:
             viol.append(pc)
     win_ok = len(window) >= 1 and all(z3.is_bv_value(z3.simplify(w)) and z3.simplify(w).as_long() == 128 for w in window)
-    if bad or not all(reach.values()):
+    reach_l = R.live_reach(viol, reach, bad)
+    if bad or not all(reach_l):
         res.append(R.Result(engine="mirsym", name="order:ws-message-task", kind="order", status="unsupported" if bad else "vacuous", detail=str(bad[:1] or {k: len(v) for k, v in reach.items()})[:300], bodies=[blk.name]))
     else:
         q = [v if isinstance(v, z3.ExprRef) else z3.BoolVal(bool(v)) for v in viol] + [z3.BoolVal(not win_ok)]
-        res.append(R.decide("order:ws-message-task:classification", "order", z3.Or(*q), [z3.Or(*v) for v in reach.values()], bodies=[blk.name],
+        res.append(R.decide("order:ws-message-task:classification", "order", z3.Or(*q), [z3.Or(*v) for v in reach_l], bodies=[blk.name],
                             desc="WebSocket per-message task: first non-whitespace byte within the 128-byte window '{' -> single, '[' -> batch (handle_rpc_call on the text from there), "
                                  "anything else (also: nothing but whitespace, an empty message) -> one -32700 reply with id null",
                             bounds="first non-whitespace byte: absent / any byte value", keydetail="ws-classification",
@@ -401,38 +402,42 @@ def obligations(tier, seed):
     core = R.bodies("core")
     out = []
     b, ctx, viol, reach, bad = _single_branch(srv)
-    if bad or not all(reach.values()):
+    reach_l = R.live_reach(viol, reach, bad)
+    if bad or not all(reach_l):
         out.append(R.Result(engine="mirsym", name="single:classification", kind="kernel", status="unsupported" if bad else "vacuous", detail=str(bad[:1] or {k: len(v) for k, v in reach.items()})[:300], bodies=[b.name]))
     else:
         q = [v if isinstance(v, z3.ExprRef) else z3.BoolVal(bool(v)) for v in viol]
-        out.append(R.decide("single:classification", "kernel", z3.Or(*q) if q else z3.BoolVal(False), [z3.Or(*v) for v in reach.values()], bodies=[b.name],
+        out.append(R.decide("single:classification", "kernel", z3.Or(*q) if q else z3.BoolVal(False), [z3.Or(*v) for v in reach_l], bodies=[b.name],
                             desc="a single message leads to exactly one of: the call is dispatched (parses as a request), the notification path (no id), or one error reply built from "
                                  "what prepare_error recovered - in that order of attempts, never two", bounds="every accept/reject combination of the three parsers",
                             keydetail="single-classification", replay=dict(scenario="c01_messages", vars={}, fixed={}, region=z3.BoolVal(True))))
     b, viol, reach, bad = _prepare_error(core)
-    if bad or not reach:
+    reach_l = R.live_reach(viol, reach, bad)
+    if bad or not reach_l[0]:
         out.append(R.Result(engine="mirsym", name="kernel:prepare_error", kind="kernel", status="unsupported", detail=str(bad[:1])[:300], bodies=[b.name]))
     else:
-        out.append(R.decide("kernel:prepare_error", "kernel", z3.Or(*viol), [z3.Or(*reach)], bodies=[b.name],
+        out.append(R.decide("kernel:prepare_error", "kernel", z3.Or(*viol), [z3.Or(*reach_l[0])], bodies=[b.name],
                             desc="JSON object with a recoverable id -> (that id, -32600 invalid request); anything else -> (null, -32700 parse error)",
                             bounds="both parser outcomes", keydetail="prepare-error"))
     b, ctx, viol, reach, bad = _dispatch(srv)
-    if bad or not all(reach.values()):
+    reach_l = R.live_reach(viol, reach, bad)
+    if bad or not all(reach_l):
         out.append(R.Result(engine="mirsym", name="dispatch:RpcService::call", kind="provenance", status="unsupported" if bad else "vacuous", detail=str(bad[:1] or {k: len(v) for k, v in reach.items()})[:300], bodies=[b.name]))
     else:
         q = [v if isinstance(v, z3.ExprRef) else z3.BoolVal(bool(v)) for v in viol]
-        out.append(R.decide("dispatch:RpcService::call:id-and-handler", "provenance", z3.Or(*q) if q else z3.BoolVal(False), [z3.Or(*v) for v in reach.values()], bodies=[b.name],
+        out.append(R.decide("dispatch:RpcService::call:id-and-handler", "provenance", z3.Or(*q) if q else z3.BoolVal(False), [z3.Or(*v) for v in reach_l], bodies=[b.name],
                             desc="unknown method -> -32601 carrying the request's own id and no handler runs; a bound handler is invoked exactly once with this request's id, params and "
                                  "the configured response limit; every library-made error reply echoes the request id",
                             bounds="lookup result absent / present with any callback kind; every path", keydetail="dispatch",
                             replay=dict(scenario="c01_messages", vars={}, fixed={}, region=z3.BoolVal(True))))
     b, viol, reach, bad, ok_outer = _blocking_join_error(core)
-    if bad or not reach:
+    reach_l = R.live_reach(viol, reach, bad)
+    if bad or not reach_l[0]:
         out.append(R.Result(engine="mirsym", name="prov:blocking-handler-failure", kind="provenance", status="unsupported" if bad else "vacuous", detail=str(bad[:1])[:300], bodies=[b.name]))
     else:
         q = [z3.BoolVal(True)] if (viol or ok_outer is False) else []
         r = R.decide("prov:blocking-handler-failure:own-id", "provenance", z3.Or(*[v if isinstance(v, z3.ExprRef) else z3.BoolVal(True) for v in viol]) if viol else z3.BoolVal(ok_outer is False),
-                     [z3.Or(*reach)], bodies=[b.name],
+                     [z3.Or(*reach_l[0])], bodies=[b.name],
                      desc="a blocking handler whose task fails (it panicked) is answered -32603 with the call's own id (captured from the callback's id argument), not id null",
                      bounds="the join-error arm of register_blocking_method", keydetail="")
         if r["status"] == "violated":
@@ -440,10 +445,11 @@ def obligations(tier, seed):
             r["replay"] = {"scenario": "c01_blocking_panic", "args": {}}
         out.append(r)
     b, ctx, viol, reach, bad = _ws_loop(srv)
-    if bad or not reach:
+    reach_l = R.live_reach(viol, reach, bad)
+    if bad or not reach_l[0]:
         out.append(R.Result(engine="mirsym", name="order:ws-receive-loop", kind="order", status="unsupported" if bad else "vacuous", detail=str(bad[:1])[:300], bodies=[b.name]))
     else:
-        out.append(R.decide("order:ws-receive-loop:one-task-per-message", "order", z3.Or(*viol) if viol else z3.BoolVal(False), [z3.Or(*reach)], bodies=[b.name],
+        out.append(R.decide("order:ws-receive-loop:one-task-per-message", "order", z3.Or(*viol) if viol else z3.BoolVal(False), [z3.Or(*reach_l[0])], bodies=[b.name],
                             desc="WebSocket receive loop: every data message received is handed - as it is, also when empty - to exactly one spawned per-message task before the next receive",
                             bounds="two loop iterations from any resume point; every try_recv outcome", keydetail="ws-message-dropped",
                             replay=dict(scenario="c01_messages", vars={}, fixed={}, region=z3.BoolVal(True))))
